@@ -5,7 +5,7 @@ CONSTANTS
   AMOUNT = {0, 1, 2}
   RULES = {"Spot", "Futures"}
   MCM = 3
-  EVOLUTIONS <- FewEvolutions
+  EVOLUTIONS <- TwoEvolutions
   MaxEvents = 2
   MaxDeliver = 4
   MaxReinit = 0
